@@ -140,6 +140,8 @@ def show(t, depth=0):
         return "%s(%s)" % (k, ", ".join(show(a, d) for a in t[1]))
     if k == "local":
         return "_%d" % t[1]
+    if k == "val":
+        return show(t[1], d)
     if k == "lfield":
         return "%s.%s" % (show(t[1], d), t[3] if t[3] is not None else t[2])
     if k == "discr":
@@ -398,6 +400,8 @@ class Frame:
 
     def read_lv(self, lv):
         k = lv[0]
+        if k == "val":
+            return lv[1]
         if k == "local":
             return self.env.get(lv[1], ("uninit", lv[1]))
         if k == "lfield":
@@ -574,7 +578,11 @@ class Frame:
         if k == "cast":
             return self.cast(rv["ck"], self.operand(rv["op"]), rv["from"], rv["ty"])
         if k == "ref":
-            return ("ref", rv["mut"], self.lv_of(rv["p"]))
+            lv = self.lv_of(rv["p"])
+            if not rv["mut"] and lv[0] in ("local", "lfield", "ldowncast"):
+                # shared borrow of a local: snapshot the value (it cannot change while the borrow lives)
+                return ("ref", False, ("val", self.read_lv(lv)))
+            return ("ref", rv["mut"], lv)
         if k == "rawptr":
             return ("ref", "Mut" in rv.get("kind", ""), self.lv_of(rv["p"]))
         if k == "discr":
